@@ -53,25 +53,29 @@ type c04Corpus struct {
 	// Recent: the MIDs are milliseconds BEFORE the start of the current wall-clock minute (resolved by
 	// c04Init), so that the fraction gets a minute occupancy map and Contains() consults it
 	Recent bool
+	// SkipSort: the store runs with --sort-docs=false (a sealed fraction keeps serving the active fraction's docs file)
+	SkipSort bool
 }
 
 var c04Corpora = []c04Corpus{
-	{"one-active", []c04Frac{{[]c04Doc{{1000, 5, 2}, {1001, 5, 40}, {1002, 5, 200}}, false, false}}, false},
-	{"one-sealed", []c04Frac{{[]c04Doc{{1000, 5, 2}, {1001, 5, 40}, {1002, 5, 200}}, true, false}}, false},
-	{"sealed+active-overlap", []c04Frac{{[]c04Doc{{1000, 5, 30}, {1001, 5, 2}}, true, false}, {[]c04Doc{{1001, 7, 100}, {1003, 5, 9}}, false, false}}, false},
-	{"two-sealed-overlap", []c04Frac{{[]c04Doc{{1000, 5, 30}, {1002, 9, 2}}, true, false}, {[]c04Doc{{1001, 7, 100}, {1002, 3, 9}}, true, false}}, false},
-	{"single-doc-sealed", []c04Frac{{[]c04Doc{{1000, 5, 17}}, true, false}}, false},
-	{"single-doc-active", []c04Frac{{[]c04Doc{{1000, 5, 17}}, false, false}}, false},
-	{"equal-mids-sealed", []c04Frac{{[]c04Doc{{1000, 5, 10}, {1000, 7, 20}, {1000, 9, 30}, {1001, 1, 5}}, true, false}}, false},
+	{"one-active", []c04Frac{{[]c04Doc{{1000, 5, 2}, {1001, 5, 40}, {1002, 5, 200}}, false, false}}, false, false},
+	{"one-sealed", []c04Frac{{[]c04Doc{{1000, 5, 2}, {1001, 5, 40}, {1002, 5, 200}}, true, false}}, false, false},
+	{"sealed+active-overlap", []c04Frac{{[]c04Doc{{1000, 5, 30}, {1001, 5, 2}}, true, false}, {[]c04Doc{{1001, 7, 100}, {1003, 5, 9}}, false, false}}, false, false},
+	{"two-sealed-overlap", []c04Frac{{[]c04Doc{{1000, 5, 30}, {1002, 9, 2}}, true, false}, {[]c04Doc{{1001, 7, 100}, {1002, 3, 9}}, true, false}}, false, false},
+	{"single-doc-sealed", []c04Frac{{[]c04Doc{{1000, 5, 17}}, true, false}}, false, false},
+	{"single-doc-active", []c04Frac{{[]c04Doc{{1000, 5, 17}}, false, false}}, false, false},
+	{"equal-mids-sealed", []c04Frac{{[]c04Doc{{1000, 5, 10}, {1000, 7, 20}, {1000, 9, 30}, {1001, 1, 5}}, true, false}}, false, false},
 	// two fractions sealed one after the other in one process, each with several doc blocks (64-byte blocks)
-	{"two-sealed-multiblock", []c04Frac{{[]c04Doc{{1000, 5, 70}, {1001, 5, 80}, {1002, 5, 90}}, true, false}, {[]c04Doc{{1003, 5, 100}, {1004, 5, 120}, {1005, 5, 65}, {1006, 5, 75}}, true, false}}, false},
+	{"two-sealed-multiblock", []c04Frac{{[]c04Doc{{1000, 5, 70}, {1001, 5, 80}, {1002, 5, 90}}, true, false}, {[]c04Doc{{1003, 5, 100}, {1004, 5, 120}, {1005, 5, 65}, {1006, 5, 75}}, true, false}}, false, false},
 	// a sealed fraction deleted after the requests' fraction list was taken, next to a live one with the same time range
-	{"deleted-after-listing", []c04Frac{{[]c04Doc{{1000, 5, 30}, {1002, 9, 12}}, true, true}, {[]c04Doc{{1001, 7, 100}, {1002, 3, 9}}, true, false}}, false},
+	{"deleted-after-listing", []c04Frac{{[]c04Doc{{1000, 5, 30}, {1002, 9, 12}}, true, true}, {[]c04Doc{{1001, 7, 100}, {1002, 3, 9}}, true, false}}, false, false},
 	// six documents of one millisecond: with the scaled constants (4 IDs per block) the run crosses an ID-block border
-	{"equal-mids-two-id-blocks-sealed", []c04Frac{{[]c04Doc{{1000, 5, 10}, {1000, 7, 20}, {1000, 9, 30}, {1000, 3, 5}, {1000, 11, 8}, {1000, 1, 14}}, true, false}}, false},
+	{"equal-mids-two-id-blocks-sealed", []c04Frac{{[]c04Doc{{1000, 5, 10}, {1000, 7, 20}, {1000, 9, 30}, {1000, 3, 5}, {1000, 11, 8}, {1000, 1, 14}}, true, false}}, false, false},
 	// recent documents, sparse minutes: the oldest one is 30 s off the wall-clock minute, the others lie
 	// 10 s before / after that offset in their minutes, with empty minutes in between
-	{"recent-sparse-sealed", []c04Frac{{[]c04Doc{{12*60_000 - 30_000, 5, 10}, {8*60_000 - 20_000, 5, 20}, {8*60_000 - 40_000, 5, 30}, {4*60_000 - 40_000, 5, 12}, {2*60_000 - 20_000, 5, 25}}, true, false}}, true},
+	{"recent-sparse-sealed", []c04Frac{{[]c04Doc{{12*60_000 - 30_000, 5, 10}, {8*60_000 - 20_000, 5, 20}, {8*60_000 - 40_000, 5, 30}, {4*60_000 - 40_000, 5, 12}, {2*60_000 - 20_000, 5, 25}}, true, false}}, true, false},
+	// the same shape as sealed+active-overlap / two-sealed-multiblock in a store that does not re-sort documents at seal
+	{Name: "nosort-sealed+sealed-multiblock+active", Fracs: []c04Frac{{[]c04Doc{{1000, 5, 30}, {1001, 5, 2}}, true, false}, {[]c04Doc{{1002, 5, 70}, {1003, 5, 80}, {1004, 5, 90}}, true, false}, {[]c04Doc{{1003, 7, 100}, {1005, 5, 9}}, false, false}}, SkipSort: true},
 }
 
 var c04InitOnce sync.Once
@@ -173,7 +177,8 @@ func c04GetStore(ci int) *c04Store {
 	dir := vfrac.MkTmp("c04")
 	st, err := storeapi.NewStore(context.Background(), storeapi.StoreConfig{
 		FracManager: fracmanager.Config{DataDir: dir, FracSize: 100 * consts.MB, TotalSize: 1000 * consts.MB, CacheSize: 10 * consts.MB, MaintenanceDelay: time.Hour,
-			SealParams: frac.SealParams{DocBlockSize: 64}}, // several doc blocks per sealed fraction
+			SealParams: frac.SealParams{DocBlockSize: 64}, // several doc blocks per sealed fraction
+			Fraction:   frac.Config{SkipSortDocs: c04Corpora[ci].SkipSort}},
 		API:         storeapi.APIConfig{StoreMode: storeapi.StoreModeCold, Search: storeapi.SearchConfig{WorkersCount: 2, FractionsPerIteration: 2}},
 	}, c04MP{})
 	if err != nil {
@@ -631,7 +636,7 @@ func TestVerifC04(t *testing.T) {
 	}
 	ev := r.Get("evaluations")
 	r.Finish(t, "model_checking",
-		fmt.Sprintf("11 corpora (one with a sealed fraction deleted after the fraction list of the requests was taken; sealed fractions have several 64-byte doc blocks; one corpus seals two multi-block fractions one after the other), built with the scaled block constants of the `small` overlay (4 IDs per block) (active / sealed / overlapping fractions / equal MIDs within one and across two ID blocks / a sealed fraction of recent documents in sparse minutes, which has a minute occupancy map; doc sizes 2..200 B); every list of <=%d distinct IDs over {present IDs} + {absent IDs at every border: (From-1), (From,minRID-1), (From,minRID+1), between, (To,maxRID+1), (To+1,0), 0, 2^60, 2^63, 2^64-1}; hints {none,right,wrong(mixed),unknown}; via Fetcher.FetchDocs and streaming GrpcV1.Fetch; plus lists of 1001/1500/2500 IDs with 0..3 present documents at start/middle/chunk end/end or spread over the chunks, taken from the oldest or from the newest fraction first. Stores live in worker subprocesses; a dying or hanging store is a violation after 3 reproductions. non-trivial = a present document at a position > 0 or a large list", maxLen),
+		fmt.Sprintf("12 corpora (one in a store running with --sort-docs=false; one with a sealed fraction deleted after the fraction list of the requests was taken; sealed fractions have several 64-byte doc blocks; one corpus seals two multi-block fractions one after the other), built with the scaled block constants of the `small` overlay (4 IDs per block) (active / sealed / overlapping fractions / equal MIDs within one and across two ID blocks / a sealed fraction of recent documents in sparse minutes, which has a minute occupancy map; doc sizes 2..200 B); every list of <=%d distinct IDs over {present IDs} + {absent IDs at every border: (From-1), (From,minRID-1), (From,minRID+1), between, (To,maxRID+1), (To+1,0), 0, 2^60, 2^63, 2^64-1}; hints {none,right,wrong(mixed),unknown}; via Fetcher.FetchDocs and streaming GrpcV1.Fetch; plus lists of 1001/1500/2500 IDs with 0..3 present documents at start/middle/chunk end/end or spread over the chunks, taken from the oldest or from the newest fraction first. Stores live in worker subprocesses; a dying or hanging store is a violation after 3 reproductions. non-trivial = a present document at a position > 0 or a large list", maxLen),
 		map[string]any{
 			"states":                        len(c04Corpora),
 			"transitions":                   ev,
